@@ -434,6 +434,9 @@ def recase(rng, s):
     return ''.join(c.upper() if rng.random() < 0.5 else c.lower() for c in s)
 
 
+FAULT_STATS = {}
+
+
 class Gen:
     """generates one history (list of JSON-able op specs) for a schema; independent of any execution"""
 
@@ -445,6 +448,7 @@ class Gen:
         self.dirty = False
         self.fault_rate = 0.2
         self.calm = False
+        self.count_fault = None
         self.pool = []       # instance descriptors that were (tried to be) created: {'ns','cls','keys':[(n,t,v)],'props'}
 
     def ns_variant(self, ns):
@@ -641,26 +645,40 @@ class Gen:
             pl.append(pl[0])
         return pl
 
-    def fault(self, props, prob):
-        """with probability prob: one wrong type / wrong arrayness / undeclared property"""
+    def fault(self, props, prob, keynames=()):
+        """with probability prob: one wrong type / wrong arrayness / undeclared property.  In four of ten cases the
+        mistyped property carries the value NULL with an explicit (wrong) type or arrayness: the type-related
+        attributes must be checked whatever the value is (a NULL key would be refused anyway, so non-key properties
+        are preferred for that variant)."""
         rng = self.rng
         if rng.random() >= prob:
             return
         self.dirty = True
         cands = [p for p in props if p['t'] != 'reference' and not isinstance(p['v'], dict)
                  and not (isinstance(p['v'], list) and any(isinstance(x, dict) for x in p['v']))]
+        null = rng.random() < 0.4
+        if null:
+            keys = [k.lower() for k in keynames]
+            nonkey = [p for p in cands if p['n'].lower() not in keys]
+            cands = nonkey or cands
         r = rng.random()
         if r < 0.4 and cands:
             p = rng.choice(cands)
             nt = rng.choice([t for t in ALL_TYPES if t != p['t']])
             p['t'] = nt
-            p['v'] = gen_raw(rng, nt) if not p['a'] else [gen_raw(rng, nt)]
+            p['v'] = None if null else (gen_raw(rng, nt) if not p['a'] else [gen_raw(rng, nt)])
+            self.count_fault = 'wrong_type_null' if null else 'wrong_type'
+            FAULT_STATS[self.count_fault] = FAULT_STATS.get(self.count_fault, 0) + 1
         elif r < 0.7 and cands:
             p = rng.choice(cands)
             p['a'] = not p['a']
-            p['v'] = [gen_raw(rng, p['t'])] if p['a'] else gen_raw(rng, p['t'])
+            p['v'] = None if null else ([gen_raw(rng, p['t'])] if p['a'] else gen_raw(rng, p['t']))
+            self.count_fault = 'wrong_arrayness_null' if null else 'wrong_arrayness'
+            FAULT_STATS[self.count_fault] = FAULT_STATS.get(self.count_fault, 0) + 1
         else:
-            props.append({'n': 'Undeclared', 't': 'string', 'a': False, 'v': 'u'})
+            props.append({'n': 'Undeclared', 't': 'string', 'a': False, 'v': None if null else 'u'})
+            self.count_fault = 'undeclared_null' if null else 'undeclared'
+            FAULT_STATS[self.count_fault] = FAULT_STATS.get(self.count_fault, 0) + 1
 
     def op_create(self, force_cls=None, force_ns=None):
         rng = self.rng
@@ -697,7 +715,7 @@ class Gen:
         for p in props:
             if rng.random() < 0.15:
                 p['n'] = recase(rng, p['n'])
-        self.fault(props, self.fault_rate)
+        self.fault(props, self.fault_rate, [k[0] for k in keys])
         rng.shuffle(props) if rng.random() < 0.3 else None
         icls = self.cls_variant(cn)
         nsarg = self.opt_ns(ns)
@@ -735,7 +753,7 @@ class Gen:
         for p in props:
             if rng.random() < 0.15:
                 p['n'] = recase(rng, p['n'])
-        self.fault(props, 0.12)
+        self.fault(props, 0.12, [p_['n'] for p_ in (c['props'] if c else []) if p_['key']])
         icls = ps['cls']
         r = rng.random()
         if r < 0.15:
@@ -1330,7 +1348,7 @@ def run(run):
                 'class trees of depth <= 3, keys of 10 types, non-keys of all types incl. arrays, associations with '
                 'reference keys, optional classes missing in a namespace); arguments: existing / deleted / duplicate / '
                 'recased / reordered / damaged paths, partial instances, PropertyList subsets with undeclared and duplicate '
-                'names, wrong types and arrayness, undeclared properties, NULL / dangling / cross-namespace / host-carrying '
+                'names, wrong types and arrayness (also on properties whose value is NULL), undeclared properties, NULL / dangling / cross-namespace / host-carrying '
                 'reference ends; every object passed in or handed out is mutated in place after the call. '
                 'non-trivial = at least one successful write and one later successful read; distinct = distinct (schema, ops) JSON')
     run.assumptions += [
@@ -1338,7 +1356,10 @@ def run(run):
         'Python dict lookup of CIMInstanceName keys = lookup by the normal form of the path (hash consistent with __eq__: C05)',
         'class resolution (inherited properties, Key/Association qualifier propagation) is taken from the real repository (C12)',
         'copy.deepcopy copies (isolation is checked on the real code by mutation, not proved)']
+    FAULT_STATS.clear()
     items = make_cases(rng, n, run.thorough)
+    for k_, v_ in sorted(FAULT_STATS.items()):
+        run.count('injected_fault:' + k_, v_)
     results = common.pmap(_work, items, chunksize=16)
     reqs, keep = [], []
     for res in results:
